@@ -25,6 +25,14 @@ def valO : Val → Rat
   | .num _ => 0
   | .unit u => u.offset
 
+def Val.isUnit : Val → Bool
+  | .num _ => false
+  | .unit _ => true
+
+def Atom.isSym : Atom Rat → Bool
+  | .sym _ => true
+  | _ => false
+
 /-- a value that can enter further arithmetic: non-zero, no offset, `n` dimensions -/
 def Good (n : Nat) : Val → Prop
   | .num x => x.toRat ≠ 0
@@ -35,7 +43,7 @@ theorem toRat_flt (q : Rat) : (NumV.flt q).toRat = q := rfl
 
 theorem evalMul_good {n : Nat} {a b : Val} (ha : Good n a) (hb : Good n b) :
     ∃ c, evalMul a b = .ok c ∧ Good n c ∧ valF c = valF a * valF b ∧
-      ∀ i, valPAt i c = valPAt i a + valPAt i b := by
+      (∀ i, valPAt i c = valPAt i a + valPAt i b) ∧ c.isUnit = (a.isUnit || b.isUnit) := by
   cases a with
   | unit u =>
     obtain ⟨ho, hl, hf⟩ := ha
@@ -46,7 +54,7 @@ theorem evalMul_good {n : Nat} {a b : Val} (ha : Good n a) (hb : Good n b) :
           { names := ndAdd u.names w.names, factor := u.factor * w.factor,
             powers := List.zipWith (· + ·) u.powers w.powers, offset := 0 }) := by
         simp [evalMul, mul, ho, ho', Except.map]
-      refine ⟨_, e, ?_, rfl, ?_⟩
+      refine ⟨_, e, ?_, rfl, ?_, rfl⟩
       · exact ⟨rfl, by simp [List.length_zipWith, hl, hl'], mul_ne_zero hf hf'⟩
       · intro i; exact getD_zipWith_add _ _ (hl.trans hl'.symm) i
     | num x =>
@@ -54,7 +62,7 @@ theorem evalMul_good {n : Nat} {a b : Val} (ha : Good n a) (hb : Good n b) :
           { names := ndAdd u.names [(x.key, Pw.one)], factor := u.factor * x.toRat,
             powers := u.powers, offset := u.offset * x.toRat }) := by
         simp [evalMul, mulNum, ho, Except.map]
-      refine ⟨_, e, ?_, rfl, ?_⟩
+      refine ⟨_, e, ?_, rfl, ?_, rfl⟩
       · exact ⟨by simp [ho], hl, mul_ne_zero hf hb⟩
       · intro i; simp [valPAt]
   | num x =>
@@ -65,7 +73,7 @@ theorem evalMul_good {n : Nat} {a b : Val} (ha : Good n a) (hb : Good n b) :
           { names := ndAdd w.names [(x.key, Pw.one)], factor := w.factor * x.toRat,
             powers := w.powers, offset := w.offset * x.toRat }) := by
         simp [evalMul, mulNum, ho', Except.map]
-      refine ⟨_, e, ?_, ?_, ?_⟩
+      refine ⟨_, e, ?_, ?_, ?_, rfl⟩
       · exact ⟨by simp [ho'], hl', mul_ne_zero hf' ha⟩
       · simp [valF, mul_comm]
       · intro i; simp [valPAt]
@@ -74,20 +82,20 @@ theorem evalMul_good {n : Nat} {a b : Val} (ha : Good n a) (hb : Good n b) :
       | int i =>
         cases y with
         | int j =>
-          refine ⟨.num (.int (i * j)), by simp [evalMul], ?_, ?_, ?_⟩
+          refine ⟨.num (.int (i * j)), by simp [evalMul], ?_, ?_, ?_, rfl⟩
           · simp only [Good, toRat_int] at *
             push_cast
             exact mul_ne_zero ha hb
           · simp [valF, toRat_int]
           · intro i; simp [valPAt]
         | flt q =>
-          refine ⟨.num (.flt ((i : Rat) * q)), by simp [evalMul, toRat_int, toRat_flt], ?_, ?_, ?_⟩
+          refine ⟨.num (.flt ((i : Rat) * q)), by simp [evalMul, toRat_int, toRat_flt], ?_, ?_, ?_, rfl⟩
           · simp only [Good, toRat_int, toRat_flt] at *
             exact mul_ne_zero ha hb
           · simp [valF, toRat_int, toRat_flt]
           · intro i; simp [valPAt]
       | flt p =>
-        refine ⟨.num (.flt (p * y.toRat)), by cases y <;> simp [evalMul, toRat_flt], ?_, ?_, ?_⟩
+        refine ⟨.num (.flt (p * y.toRat)), by cases y <;> simp [evalMul, toRat_flt], ?_, ?_, ?_, rfl⟩
         · simp only [Good, toRat_flt] at *
           exact mul_ne_zero ha hb
         · simp [valF, toRat_flt]
@@ -95,7 +103,7 @@ theorem evalMul_good {n : Nat} {a b : Val} (ha : Good n a) (hb : Good n b) :
 
 theorem evalDiv_good {n : Nat} {a b : Val} (ha : Good n a) (hb : Good n b) :
     ∃ c, evalDiv a b = .ok c ∧ Good n c ∧ valF c = valF a / valF b ∧
-      ∀ i, valPAt i c = valPAt i a - valPAt i b := by
+      (∀ i, valPAt i c = valPAt i a - valPAt i b) ∧ c.isUnit = (a.isUnit || b.isUnit) := by
   cases a with
   | unit u =>
     obtain ⟨ho, hl, hf⟩ := ha
@@ -106,7 +114,7 @@ theorem evalDiv_good {n : Nat} {a b : Val} (ha : Good n a) (hb : Good n b) :
           { names := ndSub u.names w.names, factor := u.factor / w.factor,
             powers := List.zipWith (· - ·) u.powers w.powers, offset := 0 }) := by
         simp [evalDiv, div, ho, ho', hf', Except.map]
-      refine ⟨_, e, ?_, rfl, ?_⟩
+      refine ⟨_, e, ?_, rfl, ?_, rfl⟩
       · exact ⟨rfl, by simp [List.length_zipWith, hl, hl'], div_ne_zero hf hf'⟩
       · intro i; exact getD_zipWith_sub _ _ (hl.trans hl'.symm) i
     | num x =>
@@ -115,7 +123,7 @@ theorem evalDiv_good {n : Nat} {a b : Val} (ha : Good n a) (hb : Good n b) :
           { names := ndAdd u.names [(x.key, Pw.neg Pw.one)], factor := u.factor / x.toRat,
             powers := u.powers, offset := 0 }) := by
         simp [evalDiv, divNum, ho, hx, Except.map]
-      refine ⟨_, e, ?_, rfl, ?_⟩
+      refine ⟨_, e, ?_, rfl, ?_, rfl⟩
       · exact ⟨rfl, hl, div_ne_zero hf hx⟩
       · intro i; simp [valPAt]
   | num x =>
@@ -125,15 +133,15 @@ theorem evalDiv_good {n : Nat} {a b : Val} (ha : Good n a) (hb : Good n b) :
       have e : evalDiv (.num x) (.unit w) = .ok (.unit
           { names := ndSub [(x.key, Pw.one)] w.names, factor := x.toRat / w.factor,
             powers := w.powers.map (fun p => -p), offset := 0 }) := by
-        simp [evalDiv, rdiv, hf', Except.map]
-      refine ⟨_, e, ?_, rfl, ?_⟩
+        simp [evalDiv, rdiv, ho', hf', Except.map]
+      refine ⟨_, e, ?_, rfl, ?_, rfl⟩
       · exact ⟨rfl, by simp [hl'], div_ne_zero ha hf'⟩
       · intro i
         show (w.powers.map (fun p => -p)).getD i 0 = 0 - w.powers.getD i 0
         rw [getD_map_neg]; ring
     | num y =>
       have hy : y.toRat ≠ 0 := hb
-      refine ⟨.num (.flt (x.toRat / y.toRat)), by simp [evalDiv, hy], ?_, rfl, ?_⟩
+      refine ⟨.num (.flt (x.toRat / y.toRat)), by simp [evalDiv, hy], ?_, rfl, ?_, rfl⟩
       · exact div_ne_zero ha hy
       · intro i; simp [valPAt]
 
@@ -141,7 +149,7 @@ theorem evalDiv_good {n : Nat} {a b : Val} (ha : Good n a) (hb : Good n b) :
 theorem evalPow_good {n : Nat} (root : Rat → Int → Option Rat) (bn : List String) {a : Val}
     (ha : Good n a) (p : Nat) :
     ∃ c, evalPow root bn a (.num (.int (p : Int))) = .ok c ∧ Good n c ∧ valF c = valF a ^ p ∧
-      ∀ i, valPAt i c = valPAt i a * (p : Int) := by
+      (∀ i, valPAt i c = valPAt i a * (p : Int)) ∧ c.isUnit = a.isUnit := by
   cases a with
   | unit u =>
     obtain ⟨ho, hl, hf⟩ := ha
@@ -150,7 +158,7 @@ theorem evalPow_good {n : Nat} (root : Rat → Int → Option Rat) (bn : List St
         { names := ndScale (p : Int) u.names, factor := powInt u.factor (p : Int),
           powers := u.powers.map (fun q => q * (p : Int)), offset := 0 }) := by
       simp [evalPow, powI, ho, hp, Except.map]
-    refine ⟨_, e, ?_, ?_, ?_⟩
+    refine ⟨_, e, ?_, ?_, ?_, rfl⟩
     · refine ⟨rfl, by simp [hl], ?_⟩
       simp only [powInt_eq]
       exact zpow_ne_zero _ hf
@@ -160,14 +168,14 @@ theorem evalPow_good {n : Nat} (root : Rat → Int → Option Rat) (bn : List St
     have hx : x.toRat ≠ 0 := ha
     cases x with
     | int i =>
-      refine ⟨.num (.int (i ^ p)), by simp [evalPow, numPow, Except.map], ?_, ?_, ?_⟩
+      refine ⟨.num (.int (i ^ p)), by simp [evalPow, numPow, Except.map], ?_, ?_, ?_, rfl⟩
       · simp only [Good, toRat_int] at *
         push_cast
         exact pow_ne_zero _ hx
       · simp [valF, toRat_int]
       · intro i; simp [valPAt]
     | flt q =>
-      refine ⟨.num (.flt (q ^ p)), by simp [evalPow, numPow, Except.map, powInt_eq, toRat_flt], ?_, ?_, ?_⟩
+      refine ⟨.num (.flt (q ^ p)), by simp [evalPow, numPow, Except.map, powInt_eq, toRat_flt], ?_, ?_, ?_, rfl⟩
       · simp only [Good, toRat_flt] at *
         exact pow_ne_zero _ hx
       · simp [valF, toRat_flt]
@@ -193,59 +201,69 @@ theorem evalE_pow {a b : Expr} {va vb : Val} (ha : evalE root bn t a = .ok va)
 /-- what is required of one `_names` entry so that its rendering evaluates to what it denotes -/
 structure EntryOK (kv : Atom Rat × Pw) : Prop where
   atom : AtomOK t n kv.1
-  int : kv.2.isF = false
-  off : ∀ s, kv.1 = Atom.sym s → ∀ u, tlookup t s = some u → u.offset = 0
-  pos : match kv.1 with
-    | .sym _ => True
-    | .litI i => 0 < i
-    | .litF q => 0 < q
+  off : AtomOffFree t kv.1
+
+theorem evalE_neg {a : Expr} {va : Val} (ha : evalE root bn t a = .ok va) :
+    evalE root bn t (.neg a) = evalNeg va := by
+  simp [evalE, ha]
 
 theorem atom_eval {k : Atom Rat} {p : Pw} (h : EntryOK t n (k, p)) :
-    atomNeg k = false ∧ ∃ v, evalE root bn t (atomExpr (atomAbs k)) = .ok v ∧ Good n v ∧
-      valF v = atomF t k ∧ ∀ i, valPAt i v = atomPAt t i k := by
+    ∃ v, evalE root bn t (atomExpr k) = .ok v ∧ Good n v ∧
+      valF v = atomF t k ∧ (∀ i, valPAt i v = atomPAt t i k) ∧ v.isUnit = k.isSym := by
   cases k with
   | sym s =>
     obtain ⟨u, hu, hf, hl⟩ := h.atom
-    refine ⟨rfl, .unit u, by simp [atomAbs, atomExpr, evalE, hu], ?_, by simp [valF, atomF, hu], ?_⟩
+    refine ⟨.unit u, by simp [atomExpr, evalE, hu], ?_, by simp [valF, atomF, hu], ?_, rfl⟩
     · exact ⟨h.off s rfl u hu, hl, hf⟩
     · intro i; simp [valPAt, atomPAt, hu]
   | litI i =>
-    have hi : 0 < i := h.pos
-    refine ⟨by simp [atomNeg]; omega, .num (.int i), ?_, ?_, ?_, ?_⟩
-    · have : ((i.natAbs : Int).toNat : Int) = i := by omega
-      simp [atomAbs, atomExpr, evalE, this, hi.le]
-    · simp only [Good, toRat_int]; exact_mod_cast hi.ne'
+    have hi : i ≠ 0 := h.atom
+    refine ⟨.num (.int i), ?_, ?_, ?_, ?_, rfl⟩
+    · by_cases hneg : i < 0
+      · have e1 : evalE root bn t (Expr.int i.natAbs) = .ok (.num (.int (i.natAbs : Int))) := by
+          simp [evalE]
+        have : -(i.natAbs : Int) = i := by omega
+        simp only [atomExpr, hneg, if_true]
+        rw [evalE_neg root bn t e1]
+        simp [evalNeg, this]
+      · have : ((i.toNat : Nat) : Int) = i := by omega
+        simp [atomExpr, hneg, evalE, this]
+    · simp only [Good, toRat_int]; exact_mod_cast hi
     · simp [valF, atomF, toRat_int]
     · intro j; simp [valPAt, atomPAt]
   | litF q =>
-    have hq : 0 < q := h.pos
-    have hn : ¬ q < 0 := not_lt.mpr hq.le
-    refine ⟨by simp [atomNeg, hn], .num (.flt q), ?_, ?_, ?_, ?_⟩
-    · simp [atomAbs, atomExpr, evalE, ratAbs, hn]
-    · simp only [Good, toRat_flt]; exact hq.ne'
+    have hq : q ≠ 0 := h.atom
+    refine ⟨.num (.flt q), ?_, ?_, ?_, ?_, rfl⟩
+    · by_cases hneg : q < 0
+      · have e1 : evalE root bn t (Expr.flt (-q)) = .ok (.num (.flt (-q))) := by simp [evalE]
+        simp only [atomExpr, hneg, if_true]
+        rw [evalE_neg root bn t e1]
+        simp [evalNeg]
+      · simp [atomExpr, hneg, evalE]
+    · simp only [Good, toRat_flt]; exact hq
     · simp [valF, atomF, toRat_flt]
     · intro j; simp [valPAt, atomPAt]
 
-/-- one rendered piece `atom` / `atom**p` (`p > 0`, an int) evaluates to `atom ^ p` -/
+/-- one rendered piece `atom` / `atom**p` (`p > 0`) evaluates to `atom ^ p` -/
 theorem piece_eval {k : Atom Rat} {pw : Pw} (h : EntryOK t n (k, pw)) (p : Int) (hp : 0 < p) :
-    ∃ v, evalE root bn t (pieceExpr k p false) = .ok v ∧ Good n v ∧
-      valF v = atomF t k ^ p ∧ ∀ i, valPAt i v = atomPAt t i k * p := by
-  obtain ⟨hneg, v, hv, hg, hf, hpw⟩ := atom_eval root bn t n h
+    ∃ v, evalE root bn t (pieceExpr k p) = .ok v ∧ Good n v ∧
+      valF v = atomF t k ^ p ∧ (∀ i, valPAt i v = atomPAt t i k * p) ∧ v.isUnit = k.isSym := by
+  obtain ⟨v, hv, hg, hf, hpw, hu⟩ := atom_eval root bn t n h
   by_cases h1 : p > 1
-  · obtain ⟨c, hc, hgc, hfc, hpc⟩ := evalPow_good root bn hg p.toNat
+  · obtain ⟨c, hc, hgc, hfc, hpc, huc⟩ := evalPow_good root bn hg p.toNat
     have hcast : ((p.toNat : Nat) : Int) = p := Int.toNat_of_nonneg hp.le
     have hb : evalE root bn t (Expr.int p.toNat) = .ok (.num (.int ((p.toNat : Nat) : Int))) := by
       simp [evalE]
-    refine ⟨c, ?_, hgc, ?_, ?_⟩
-    · simp only [pieceExpr, hneg, h1, if_true, Bool.false_eq_true, if_false]
+    refine ⟨c, ?_, hgc, ?_, ?_, by rw [huc, hu]⟩
+    · simp only [pieceExpr, h1, if_true]
       rw [evalE_pow root bn t hv hb]
       exact hc
     · rw [hfc, hf, ← zpow_natCast, hcast]
     · intro i; rw [hpc, hpw, hcast]
   · have : p = 1 := by omega
     subst this
-    refine ⟨v, ?_, hg, by simp [hf], by intro i; simp [hpw]⟩
-    simp only [pieceExpr, hneg, h1, if_false, Bool.false_eq_true]
+    refine ⟨v, ?_, hg, by simp [hf], by intro i; simp [hpw], hu⟩
+    simp only [pieceExpr, h1, if_false]
     exact hv
 
 def posF (ns : Names Rat) : Rat :=
@@ -256,6 +274,9 @@ def posPAt (i : Nat) (ns : Names Rat) : Int :=
   (ns.map (fun kv => if kv.2.v > 0 then atomPAt t i kv.1 * kv.2.v else 0)).sum
 def negPAt (i : Nat) (ns : Names Rat) : Int :=
   (ns.map (fun kv => if kv.2.v < 0 then atomPAt t i kv.1 * (-kv.2.v) else 0)).sum
+/-- a unit name occurs in the numerator / in the denominator of the rendered name -/
+def symPos (ns : Names Rat) : Bool := ns.any (fun kv => decide (kv.2.v > 0) && kv.1.isSym)
+def symNeg (ns : Names Rat) : Bool := ns.any (fun kv => decide (kv.2.v < 0) && kv.1.isSym)
 
 theorem namesF_split (ns : Names Rat) : namesF t ns = posF t ns / negF t ns := by
   induction ns with
@@ -291,108 +312,157 @@ theorem namesPAt_split (i : Nat) (ns : Names Rat) :
 
 theorem numPieces_cons (kv : Atom Rat × Pw) (rest : Names Rat) :
     numPieces (kv :: rest) =
-      if kv.2.v > 0 then pieceExpr kv.1 kv.2.v kv.2.isF :: numPieces rest else numPieces rest := by
+      if kv.2.v > 0 then pieceExpr kv.1 kv.2.v :: numPieces rest else numPieces rest := by
   simp only [numPieces, List.filter_cons]
   split <;> simp_all
 
 theorem denPieces_cons (kv : Atom Rat × Pw) (rest : Names Rat) :
     denPieces (kv :: rest) =
-      if kv.2.v < 0 then pieceExpr kv.1 (-kv.2.v) kv.2.isF :: denPieces rest else denPieces rest := by
+      if kv.2.v < 0 then pieceExpr kv.1 (-kv.2.v) :: denPieces rest else denPieces rest := by
   simp only [denPieces, List.filter_cons]
   split <;> simp_all
+
+theorem symPos_cons (kv : Atom Rat × Pw) (rest : Names Rat) :
+    symPos (kv :: rest) = ((decide (kv.2.v > 0) && kv.1.isSym) || symPos rest) := by
+  simp [symPos]
+
+theorem symNeg_cons (kv : Atom Rat × Pw) (rest : Names Rat) :
+    symNeg (kv :: rest) = ((decide (kv.2.v < 0) && kv.1.isSym) || symNeg rest) := by
+  simp [symNeg]
 
 /-- the `*`-chain over the numerator pieces -/
 theorem mul_chain (ns : Names Rat) (hns : ∀ kv ∈ ns, EntryOK t n kv) (acc : Expr) (va : Val)
     (ha : evalE root bn t acc = .ok va) (hg : Good n va) :
     ∃ v, evalE root bn t ((numPieces ns).foldl Expr.mul acc) = .ok v ∧ Good n v ∧
-      valF v = valF va * posF t ns ∧ ∀ i, valPAt i v = valPAt i va + posPAt t i ns := by
+      valF v = valF va * posF t ns ∧ (∀ i, valPAt i v = valPAt i va + posPAt t i ns) ∧
+      v.isUnit = (va.isUnit || symPos ns) := by
   induction ns generalizing acc va with
-  | nil => exact ⟨va, by simpa [numPieces] using ha, hg, by simp [posF], by simp [posPAt]⟩
+  | nil => exact ⟨va, by simpa [numPieces] using ha, hg, by simp [posF], by simp [posPAt], by simp [symPos]⟩
   | cons kv rest ih =>
     have hrest : ∀ kv' ∈ rest, EntryOK t n kv' := fun kv' h => hns kv' (List.mem_cons_of_mem _ h)
     have hkv := hns kv (List.mem_cons_self ..)
-    rw [numPieces_cons]
+    rw [numPieces_cons, symPos_cons]
     by_cases hp : kv.2.v > 0
-    · obtain ⟨vp, hvp, hgp, hfp, hpp⟩ := piece_eval root bn t n (k := kv.1) (pw := kv.2) hkv kv.2.v hp
-      obtain ⟨c, hc, hgc, hfc, hpc⟩ := evalMul_good hg hgp
-      have hI : kv.2.isF = false := hkv.int
-      simp only [hp, if_true, List.foldl_cons, hI]
-      obtain ⟨v, hv, hgv, hfv, hpv⟩ := ih hrest (Expr.mul acc (pieceExpr kv.1 kv.2.v false)) c
+    · obtain ⟨vp, hvp, hgp, hfp, hpp, hup⟩ := piece_eval root bn t n (k := kv.1) (pw := kv.2) hkv kv.2.v hp
+      obtain ⟨c, hc, hgc, hfc, hpc, huc⟩ := evalMul_good hg hgp
+      simp only [hp, if_true, List.foldl_cons]
+      obtain ⟨v, hv, hgv, hfv, hpv, huv⟩ := ih hrest (Expr.mul acc (pieceExpr kv.1 kv.2.v)) c
         (by rw [evalE_mul root bn t ha hvp]; exact hc) hgc
-      refine ⟨v, hv, hgv, ?_, ?_⟩
+      refine ⟨v, hv, hgv, ?_, ?_, ?_⟩
       · rw [hfv, hfc, hfp]; simp only [posF, List.map_cons, List.prod_cons, hp, if_true]; ring
       · intro i; rw [hpv, hpc, hpp]; simp only [posPAt, List.map_cons, List.sum_cons, hp, if_true]; ring
+      · rw [huv, huc, hup]; simp [hp, Bool.or_assoc]
     · simp only [hp, if_false]
-      obtain ⟨v, hv, hgv, hfv, hpv⟩ := ih hrest acc va ha hg
-      refine ⟨v, hv, hgv, ?_, ?_⟩
+      obtain ⟨v, hv, hgv, hfv, hpv, huv⟩ := ih hrest acc va ha hg
+      refine ⟨v, hv, hgv, ?_, ?_, ?_⟩
       · rw [hfv]; simp only [posF, List.map_cons, List.prod_cons, hp, if_false, one_mul]
       · intro i; rw [hpv]; simp only [posPAt, List.map_cons, List.sum_cons, hp, if_false, zero_add]
+      · rw [huv]; simp [hp]
 
 /-- the `/`-chain over the denominator pieces -/
 theorem div_chain (ns : Names Rat) (hns : ∀ kv ∈ ns, EntryOK t n kv) (acc : Expr) (va : Val)
     (ha : evalE root bn t acc = .ok va) (hg : Good n va) :
     ∃ v, evalE root bn t ((denPieces ns).foldl Expr.div acc) = .ok v ∧ Good n v ∧
-      valF v = valF va / negF t ns ∧ ∀ i, valPAt i v = valPAt i va - negPAt t i ns := by
+      valF v = valF va / negF t ns ∧ (∀ i, valPAt i v = valPAt i va - negPAt t i ns) ∧
+      v.isUnit = (va.isUnit || symNeg ns) := by
   induction ns generalizing acc va with
-  | nil => exact ⟨va, by simpa [denPieces] using ha, hg, by simp [negF], by simp [negPAt]⟩
+  | nil => exact ⟨va, by simpa [denPieces] using ha, hg, by simp [negF], by simp [negPAt], by simp [symNeg]⟩
   | cons kv rest ih =>
     have hrest : ∀ kv' ∈ rest, EntryOK t n kv' := fun kv' h => hns kv' (List.mem_cons_of_mem _ h)
     have hkv := hns kv (List.mem_cons_self ..)
-    rw [denPieces_cons]
+    rw [denPieces_cons, symNeg_cons]
     by_cases hp : kv.2.v < 0
-    · obtain ⟨vp, hvp, hgp, hfp, hpp⟩ :=
+    · obtain ⟨vp, hvp, hgp, hfp, hpp, hup⟩ :=
         piece_eval root bn t n (k := kv.1) (pw := kv.2) hkv (-kv.2.v) (by omega)
-      obtain ⟨c, hc, hgc, hfc, hpc⟩ := evalDiv_good hg hgp
-      have hI : kv.2.isF = false := hkv.int
-      simp only [hp, if_true, List.foldl_cons, hI]
-      obtain ⟨v, hv, hgv, hfv, hpv⟩ := ih hrest (Expr.div acc (pieceExpr kv.1 (-kv.2.v) false)) c
+      obtain ⟨c, hc, hgc, hfc, hpc, huc⟩ := evalDiv_good hg hgp
+      simp only [hp, if_true, List.foldl_cons]
+      obtain ⟨v, hv, hgv, hfv, hpv, huv⟩ := ih hrest (Expr.div acc (pieceExpr kv.1 (-kv.2.v))) c
         (by rw [evalE_div root bn t ha hvp]; exact hc) hgc
-      refine ⟨v, hv, hgv, ?_, ?_⟩
+      refine ⟨v, hv, hgv, ?_, ?_, ?_⟩
       · rw [hfv, hfc, hfp]; simp only [negF, List.map_cons, List.prod_cons, hp, if_true]
         rw [div_div]
       · intro i; rw [hpv, hpc, hpp]; simp only [negPAt, List.map_cons, List.sum_cons, hp, if_true]; ring
+      · rw [huv, huc, hup]; simp [hp, Bool.or_assoc]
     · simp only [hp, if_false]
-      obtain ⟨v, hv, hgv, hfv, hpv⟩ := ih hrest acc va ha hg
-      refine ⟨v, hv, hgv, ?_, ?_⟩
+      obtain ⟨v, hv, hgv, hfv, hpv, huv⟩ := ih hrest acc va ha hg
+      refine ⟨v, hv, hgv, ?_, ?_, ?_⟩
       · rw [hfv]; simp only [negF, List.map_cons, List.prod_cons, hp, if_false, one_mul]
       · intro i; rw [hpv]; simp only [negPAt, List.map_cons, List.sum_cons, hp, if_false, zero_add]
+      · rw [huv]; simp [hp]
 
 /-- the head of `nameExpr`: `1` or the `*`-chain of the numerator pieces -/
 theorem head_eval (ns : Names Rat) (hns : ∀ kv ∈ ns, EntryOK t n kv) :
     ∃ v, evalE root bn t (nameHead ns) = .ok v ∧ Good n v ∧
-      valF v = posF t ns ∧ ∀ i, valPAt i v = posPAt t i ns := by
+      valF v = posF t ns ∧ (∀ i, valPAt i v = posPAt t i ns) ∧ v.isUnit = symPos ns := by
   unfold nameHead
   induction ns with
   | nil =>
-    refine ⟨.num (.int 1), by simp [numPieces, evalE], ?_, by simp [valF, posF, toRat_int], by simp [valPAt, posPAt]⟩
+    refine ⟨.num (.int 1), by simp [numPieces, evalE], ?_, by simp [valF, posF, toRat_int],
+      by simp [valPAt, posPAt], by simp [symPos, Val.isUnit]⟩
     simp [Good, toRat_int]
   | cons kv rest ih =>
     have hrest : ∀ kv' ∈ rest, EntryOK t n kv' := fun kv' h => hns kv' (List.mem_cons_of_mem _ h)
     have hkv := hns kv (List.mem_cons_self ..)
-    rw [numPieces_cons]
+    rw [numPieces_cons, symPos_cons]
     by_cases hp : kv.2.v > 0
-    · obtain ⟨vp, hvp, hgp, hfp, hpp⟩ := piece_eval root bn t n (k := kv.1) (pw := kv.2) hkv kv.2.v hp
-      have hI : kv.2.isF = false := hkv.int
-      simp only [hp, if_true, hI]
-      obtain ⟨v, hv, hgv, hfv, hpv⟩ := mul_chain root bn t n rest hrest _ vp hvp hgp
-      refine ⟨v, hv, hgv, ?_, ?_⟩
+    · obtain ⟨vp, hvp, hgp, hfp, hpp, hup⟩ := piece_eval root bn t n (k := kv.1) (pw := kv.2) hkv kv.2.v hp
+      simp only [hp, if_true]
+      obtain ⟨v, hv, hgv, hfv, hpv, huv⟩ := mul_chain root bn t n rest hrest _ vp hvp hgp
+      refine ⟨v, hv, hgv, ?_, ?_, ?_⟩
       · rw [hfv, hfp]; simp only [posF, List.map_cons, List.prod_cons, hp, if_true]
       · intro i; rw [hpv, hpp]; simp only [posPAt, List.map_cons, List.sum_cons, hp, if_true]
+      · rw [huv, hup]; simp [hp]
     · simp only [hp, if_false]
-      obtain ⟨v, hv, hgv, hfv, hpv⟩ := ih hrest
-      refine ⟨v, hv, hgv, ?_, ?_⟩
+      obtain ⟨v, hv, hgv, hfv, hpv, huv⟩ := ih hrest
+      refine ⟨v, hv, hgv, ?_, ?_, ?_⟩
       · rw [hfv]; simp only [posF, List.map_cons, List.prod_cons, hp, if_false, one_mul]
       · intro i; rw [hpv]; simp only [posPAt, List.map_cons, List.sum_cons, hp, if_false, zero_add]
+      · rw [huv]; simp [hp]
 
-/-- Evaluating the rendered name of a composite unit gives `∏ atom ^ power`. -/
+/-- Evaluating the rendered name of a composite unit gives `∏ atom ^ power`; the value is a unit
+(not a bare number) exactly when a unit name occurs with a non-zero power. -/
 theorem nameExpr_eval (ns : Names Rat) (hns : ∀ kv ∈ ns, EntryOK t n kv) :
     ∃ v, evalE root bn t (nameExpr ns) = .ok v ∧ Good n v ∧
-      valF v = namesF t ns ∧ ∀ i, valPAt i v = namesPAt t i ns := by
-  obtain ⟨vh, hvh, hgh, hfh, hph⟩ := head_eval root bn t n ns hns
-  obtain ⟨v, hv, hgv, hfv, hpv⟩ := div_chain root bn t n ns hns _ vh hvh hgh
-  refine ⟨v, by simpa [nameExpr] using hv, hgv, ?_, ?_⟩
+      valF v = namesF t ns ∧ (∀ i, valPAt i v = namesPAt t i ns) ∧
+      v.isUnit = (symPos ns || symNeg ns) := by
+  obtain ⟨vh, hvh, hgh, hfh, hph, huh⟩ := head_eval root bn t n ns hns
+  obtain ⟨v, hv, hgv, hfv, hpv, huv⟩ := div_chain root bn t n ns hns _ vh hvh hgh
+  refine ⟨v, by simpa [nameExpr] using hv, hgv, ?_, ?_, by rw [huv, huh]⟩
   · rw [hfv, hfh, namesF_split]
   · intro i; rw [hpv, hph, namesPAt_split]
+
+/-- `hasUnitName` (the test `simplify_unit` makes) in terms of numerator / denominator -/
+theorem hasUnitName_split (ns : Names Rat) (hns : ∀ kv ∈ ns, AtomOK t n kv.1) :
+    hasUnitName t ns = (symPos ns || symNeg ns) := by
+  induction ns with
+  | nil => simp [hasUnitName, symPos, symNeg]
+  | cons kv rest ih =>
+    have hrest := ih (fun kv' h => hns kv' (List.mem_cons_of_mem _ h))
+    have hk := hns kv (List.mem_cons_self ..)
+    have e : hasUnitName t (kv :: rest) =
+        ((kv.2.v != 0 && (match kv.1 with
+          | .sym s => (tlookup t s).isSome
+          | _ => false)) || hasUnitName t rest) := by simp [hasUnitName]
+    rw [e, hrest, symPos_cons, symNeg_cons]
+    have hm : (match kv.1 with
+          | .sym s => (tlookup t s).isSome
+          | _ => false) = kv.1.isSym := by
+      cases hk1 : kv.1 with
+      | sym s =>
+        rw [hk1] at hk
+        obtain ⟨u, hu, _⟩ := hk
+        simp [Atom.isSym, hu]
+      | litI i => rfl
+      | litF q => rfl
+    rw [hm]
+    rcases lt_trichotomy kv.2.v 0 with h | h | h
+    · have h1 : ¬ kv.2.v > 0 := by omega
+      have h2 : kv.2.v ≠ 0 := by omega
+      cases kv.1.isSym <;> cases symPos rest <;> cases symNeg rest <;> simp [h, h1, h2]
+    · cases kv.1.isSym <;> cases symPos rest <;> cases symNeg rest <;> simp [h]
+    · have h1 : ¬ kv.2.v < 0 := by omega
+      have h2 : kv.2.v ≠ 0 := by omega
+      cases kv.1.isSym <;> cases symPos rest <;> cases symNeg rest <;> simp [h, h1, h2]
 
 end Render
 
@@ -408,9 +478,31 @@ def NoZeroLit : Expr → Prop
   | .div a b => NoZeroLit a ∧ NoZeroLit b
   | .pow a _ => NoZeroLit a
 
+/-- a unit is an untouched table unit (the only way to carry an offset), or it has no offset and
+all unit names in its `_names` are offset free (every operator rejects offset operands) -/
+def Shape (t : Table) (u : PUnit Rat) : Prop :=
+  (∃ a, u.names = [(Atom.sym a, Pw.one)] ∧ tlookup t a = some u) ∨
+  (u.offset = 0 ∧ OffFree t u.names)
+
 def ValOK (t : Table) (n : Nat) : Val → Prop
   | .num x => x.toRat ≠ 0
-  | .unit u => Inv t n u ∧ IntNames u.names
+  | .unit u => Inv t n u ∧ Shape t u
+
+/-- an operand without offset has offset free names -/
+theorem Shape.offFree {t : Table} {u : PUnit Rat} (h : Shape t u) (ho : u.offset = 0) :
+    OffFree t u.names := by
+  rcases h with ⟨a, hn, ha⟩ | ⟨_, h⟩
+  · intro kv hkv s hs w hw
+    rw [hn] at hkv
+    simp at hkv
+    subst hkv
+    simp at hs
+    subst hs
+    rw [ha] at hw
+    simp at hw
+    subst hw
+    exact ho
+  · exact h
 
 theorem map_ok {α β : Type} {f : α → β} {x : Except Err α} {v : β} (h : x.map f = .ok v) :
     ∃ c, x = .ok c ∧ v = f c := by
@@ -426,9 +518,6 @@ theorem key_ok (t : Table) (n : Nat) (x : NumV) (hx : x.toRat ≠ 0) :
     simp only [NumV.key, AtomOK]
     intro h; apply hx; simp [toRat_int, h]
   | flt q => exact ⟨hx, rfl, fun _ => rfl⟩
-
-theorem intNames_single (k : Atom Rat) (p : Pw) (hp : p.isF = false) : IntNames [(k, p)] := by
-  intro kv h; simp at h; subst h; exact hp
 
 /-- the local `go` of `numPow` -/
 def numPowGo (x : NumV) (n : Int) (forceF : Bool) : Except Err NumV :=
@@ -483,7 +572,8 @@ theorem eval_inv (bn : List String) (t : Table) (n : Nat) (hT : TableOK t n) (e 
     split at h
     · rename_i u hu
       simp at h; subst h
-      exact inv_lookup hT hu
+      obtain ⟨_, _, a, hn, ha⟩ := hT s u hu
+      exact ⟨inv_lookup hT hu, Or.inl ⟨a, hn, ha⟩⟩
     · simp at h
   | neg a ih =>
     simp only [evalE] at h
@@ -512,29 +602,40 @@ theorem eval_inv (bn : List String) (t : Table) (n : Nat) (hT : TableOK t n) (e 
           cases vb with
           | unit w =>
             obtain ⟨c, hc, rfl⟩ := map_ok (by simpa [evalMul] using h)
-            refine ⟨inv_mul ha.1 hb.1 hc, ?_⟩
+            refine ⟨inv_mul ha.1 hb.1 hc, Or.inr ?_⟩
             unfold PUnit.mul at hc
             split at hc
             · simp at hc
-            · simp at hc; subst hc; exact ndAdd_isF _ _ ha.2 hb.2
+            · rename_i ho
+              simp only [not_or, not_not] at ho
+              simp at hc; subst hc
+              exact ⟨rfl, ndAdd_keys (AtomOffFree t) _ _ (ha.2.offFree ho.1) (hb.2.offFree ho.2)⟩
           | num x =>
             obtain ⟨c, hc, rfl⟩ := map_ok (by simpa [evalMul] using h)
             obtain ⟨k1, k2, k3⟩ := key_ok t n x hb
-            refine ⟨inv_mulNum ha.1 k1 k2 k3 hc, ?_⟩
+            refine ⟨inv_mulNum ha.1 k1 k2 k3 hc, Or.inr ?_⟩
             unfold PUnit.mulNum at hc
             split at hc
             · simp at hc
-            · simp at hc; subst hc; exact ndAdd_isF _ _ ha.2 (intNames_single _ _ rfl)
+            · rename_i ho
+              simp only [not_not] at ho
+              simp at hc; subst hc
+              exact ⟨by simp [ho], ndAdd_keys (AtomOffFree t) _ _ (ha.2.offFree ho)
+                (offFree_single t _ _ (atomOffFree_key t x))⟩
         | num x =>
           cases vb with
           | unit w =>
             obtain ⟨c, hc, rfl⟩ := map_ok (by simpa [evalMul] using h)
             obtain ⟨k1, k2, k3⟩ := key_ok t n x ha
-            refine ⟨inv_mulNum hb.1 k1 k2 k3 hc, ?_⟩
+            refine ⟨inv_mulNum hb.1 k1 k2 k3 hc, Or.inr ?_⟩
             unfold PUnit.mulNum at hc
             split at hc
             · simp at hc
-            · simp at hc; subst hc; exact ndAdd_isF _ _ hb.2 (intNames_single _ _ rfl)
+            · rename_i ho
+              simp only [not_not] at ho
+              simp at hc; subst hc
+              exact ⟨by simp [ho], ndAdd_keys (AtomOffFree t) _ _ (hb.2.offFree ho)
+                (offFree_single t _ _ (atomOffFree_key t x))⟩
           | num y =>
             obtain ⟨c, hc, _, hf, _⟩ := evalMul_good (n := n) (a := .num x) (b := .num y) ha hb
             rw [hc] at h; simp at h; subst h
@@ -556,33 +657,46 @@ theorem eval_inv (bn : List String) (t : Table) (n : Nat) (hT : TableOK t n) (e 
           cases vb with
           | unit w =>
             obtain ⟨c, hc, rfl⟩ := map_ok (by simpa [evalDiv] using h)
-            refine ⟨inv_div ha.1 hb.1 hc, ?_⟩
+            refine ⟨inv_div ha.1 hb.1 hc, Or.inr ?_⟩
             unfold PUnit.div at hc
             split at hc
             · simp at hc
-            · split at hc
+            · rename_i ho
+              simp only [not_or, not_not] at ho
+              split at hc
               · simp at hc
-              · simp at hc; subst hc; exact ndSub_isF _ _ ha.2 hb.2
+              · simp at hc; subst hc
+                exact ⟨rfl, ndSub_keys (AtomOffFree t) _ _ (ha.2.offFree ho.1) (hb.2.offFree ho.2)⟩
           | num x =>
             obtain ⟨c, hc, rfl⟩ := map_ok (by simpa [evalDiv] using h)
             obtain ⟨k1, k2, k3⟩ := key_ok t n x hb
-            refine ⟨inv_divNum ha.1 k1 k2 k3 hc, ?_⟩
+            refine ⟨inv_divNum ha.1 k1 k2 k3 hc, Or.inr ?_⟩
             unfold PUnit.divNum at hc
             split at hc
             · simp at hc
-            · split at hc
+            · rename_i ho
+              simp only [not_not] at ho
+              split at hc
               · simp at hc
-              · simp at hc; subst hc; exact ndAdd_isF _ _ ha.2 (intNames_single _ _ rfl)
+              · simp at hc; subst hc
+                exact ⟨rfl, ndAdd_keys (AtomOffFree t) _ _ (ha.2.offFree ho)
+                  (offFree_single t _ _ (atomOffFree_key t x))⟩
         | num x =>
           cases vb with
           | unit w =>
             obtain ⟨c, hc, rfl⟩ := map_ok (by simpa [evalDiv] using h)
             obtain ⟨k1, k2, k3⟩ := key_ok t n x ha
-            refine ⟨inv_rdiv hb.1 k1 k2 k3 hc, ?_⟩
+            refine ⟨inv_rdiv hb.1 k1 k2 k3 hc, Or.inr ?_⟩
             unfold PUnit.rdiv at hc
             split at hc
             · simp at hc
-            · simp at hc; subst hc; exact ndSub_isF _ _ (intNames_single _ _ rfl) hb.2
+            · rename_i ho
+              simp only [not_not] at ho
+              split at hc
+              · simp at hc
+              · simp at hc; subst hc
+                exact ⟨rfl, ndSub_keys (AtomOffFree t) _ _
+                  (offFree_single t _ _ (atomOffFree_key t x)) (hb.2.offFree ho)⟩
           | num y =>
             have hy : y.toRat ≠ 0 := hb
             simp [evalDiv, hy] at h; subst h
@@ -604,13 +718,16 @@ theorem eval_inv (bn : List String) (t : Table) (n : Nat) (hT : TableOK t n) (e 
             cases y with
             | int m =>
               obtain ⟨c, hc, rfl⟩ := map_ok (by simpa [evalPow] using h)
-              refine ⟨inv_powI ha.1 hc, ?_⟩
+              refine ⟨inv_powI ha.1 hc, Or.inr ?_⟩
               unfold PUnit.powI at hc
               split at hc
               · simp at hc
-              · split at hc
+              · rename_i ho
+                simp only [not_not] at ho
+                split at hc
                 · simp at hc
-                · simp at hc; subst hc; exact ndScale_isF _ _ ha.2
+                · simp at hc; subst hc
+                  exact ⟨rfl, ndScale_keys (AtomOffFree t) _ _ (ha.2.offFree ho)⟩
             | flt q =>
               exfalso
               simp only [evalPow] at h
